@@ -28,7 +28,7 @@ class VirtualClock:
 class Hooks:
     EVENTS = ('run_enter', 'run_exit', 'after_add_bound', 'before_add_samples', 'after_add_samples',
               'after_sample_shell', 'before_eval', 'after_eval', 'before_write', 'after_write',
-              'after_toggle', 'on_resume', 'on_quiescent')
+              'after_toggle', 'on_resume', 'on_quiescent', 'pool_map')
 
     def __init__(self, monitors, proposal_budget=None, clock=None):
         self.monitors = list(monitors)
@@ -165,6 +165,15 @@ class Hooks:
                 raise BudgetExceeded('proposal budget of %d exhausted' % hooks.budget)
             return r
         self._patch(Union, 'sample', u_sample)
+
+        from nautilus.pool import NautilusPool
+        o_map = NautilusPool.map
+
+        def pool_map(self, func, iterable):
+            items = list(iterable)
+            hooks.emit('pool_map', self, func, len(items))
+            return o_map(self, func, items)
+        self._patch(NautilusPool, 'map', pool_map)
 
         if self.clock is not None:
             self._patch(ns, 'time', self.clock)
